@@ -178,13 +178,24 @@ def tz_fixed_offset(name):
     return None
 
 
-def tz_offset_at(ex, tzv, what):
+def tz_rule(name):
+    """the zone's rule table as an UNINTERPRETED function instant (seconds, UTC) -> offset (seconds east): whatever holds for
+    every such function holds for the real IANA table, on both sides of every transition"""
+    return z3.Function('tzrule_' + re.sub(r'\W', '_', name), z3.BitVecSort(W), z3.BitVecSort(32))
+
+
+def tz_offset_at(ex, tzv, what, instant=None):
     off = tz_fixed_offset(tzv.fields[0])
     if off is None:
-        # named IANA zone: the rule tables are outside the model; the offset is an arbitrary value of chrono's range
-        v = ex.fresh('zoneoff', 32)
-        ex.solver.add(z3.And(v > -86400, v < 86400))
+        # named IANA zone: the rule tables are outside the model; the offset is an arbitrary value of chrono's range -
+        # the same value for the same instant when the instant is known (uninterpreted function of the instant)
         ex.side['named_zone'] = True
+        if instant is not None:
+            i = instant if is_sym(instant) else z3.BitVecVal(instant, W)
+            v = tz_rule(tzv.fields[0])(i)
+        else:
+            v = ex.fresh('zoneoff', 32)
+        ex.solver.add(z3.And(v > -86400, v < 86400))
         return v
     return off
 
@@ -487,11 +498,13 @@ def znorm(zone):
     return zone
 
 
-def zone_offset_for_utc(ex, zone, utc_naive):
+def zone_offset_for_utc(ex, zone, utc_naive, instant=None):
     zone = znorm(zone)
     if zone.ty == 'Utc': return 0
     if zone.ty == 'FixedOffset': return zone.fields[0]
-    if zone.ty == 'Tz': return tz_offset_at(ex, zone, 'with_timezone')
+    if zone.ty == 'Tz':
+        if instant is None and utc_naive is not None: instant = naive_secs(utc_naive)
+        return tz_offset_at(ex, zone, 'with_timezone', instant)
     raise Unsupported('zone ' + zone.ty)
 
 
@@ -505,8 +518,27 @@ def m_from_utc_datetime(ex, site, a):
 @model('<Utc as TimeZone>::from_local_datetime', '<FixedOffset as TimeZone>::from_local_datetime', '<Tz as TimeZone>::from_local_datetime')
 def m_from_local_datetime(ex, site, a):
     zone = znorm(deref(ex, a[0])); n = deref(ex, a[1])
-    off = zone_offset_for_utc(ex, zone, n)     # fixed zones: local and utc views have the same offset
+    if zone.ty == 'Tz' and tz_fixed_offset(zone.fields[0]) is None:
+        return local_in_named_zone(ex, zone, n)
+    off = zone_offset_for_utc(ex, zone, None)     # fixed zones: local and utc views have the same offset
     return Agg('LocalResult', 0, [cdt(n, off, zone)])
+
+
+def local_in_named_zone(ex, zone, n):
+    """local time -> instant in a zone with transitions: skipped (None), unique (Single) or repeated (Ambiguous) - which one
+    depends on the rule table, so all three are explored; an offset o is admissible iff rule(local - o) == o"""
+    ex.side['named_zone'] = True
+    k = ex.pick(3)
+    if k == 0: return Agg('LocalResult', 2, [])
+    F = tz_rule(zone.fields[0]); loc = naive_secs(n)
+    loc = loc if is_sym(loc) else z3.BitVecVal(loc, W)
+    def adm(tag):
+        o = ex.fresh('localoff' + tag, 32)
+        ex.assume(z3.And(o > -86400, o < 86400, F(loc - z3.SignExt(W - 32, o)) == o)); return o
+    o1 = adm('a')
+    if k == 1: return Agg('LocalResult', 0, [cdt(n, o1, zone, loc - z3.SignExt(W - 32, o1))])
+    o2 = adm('b'); ex.assume(o1 > o2)       # earliest first: the larger offset
+    return Agg('LocalResult', 1, [cdt(n, o1, zone, loc - z3.SignExt(W - 32, o1)), cdt(n, o2, zone, loc - z3.SignExt(W - 32, o2))])
 
 
 @model('<FixedOffset as TimeZone>::with_ymd_and_hms', '<Utc as TimeZone>::with_ymd_and_hms', '<Tz as TimeZone>::with_ymd_and_hms')
@@ -515,6 +547,9 @@ def m_with_ymd_and_hms(ex, site, a):
     if is_sym(y) and y.size() == 32 and not ex.branch(z3.And(y >= 0, y <= 9999)): raise Unsupported('symbolic year outside 0..9999')
     good = zand([valid_ymd(y, m, d), ule(h, 23), ule(mi, 59), ule(s, 59)])
     if not ex.branch(good): return Agg('LocalResult', 2, [])
+    zn = znorm(zone)
+    if zn.ty == 'Tz' and tz_fixed_offset(zn.fields[0]) is None:
+        return local_in_named_zone(ex, zn, ndt(nd(y, m, d), nt(h, mi, s, 0)))
     off = zone_offset_for_utc(ex, zone, None)
     return Agg('LocalResult', 0, [cdt(ndt(nd(y, m, d), nt(h, mi, s, 0)), off, zone)])
 
@@ -522,6 +557,8 @@ def m_with_ymd_and_hms(ex, site, a):
 @model('LocalResult::single', 'LocalResult::earliest', 'LocalResult::latest')
 def m_local_single(ex, site, a):
     r = a[0]
+    if r.variant == 1 and site.method == 'earliest': return some(r.fields[0])
+    if r.variant == 1 and site.method == 'latest': return some(r.fields[1])
     return some(r.fields[0]) if r.variant == 0 else none()
 
 
@@ -543,7 +580,7 @@ def m_with_nanosecond(ex, site, a):
 @model('DateTime::with_timezone')
 def m_with_timezone(ex, site, a):
     dt = deref(ex, a[0]); zone = znorm(deref(ex, a[1]))
-    off = zone_offset_for_utc(ex, zone, None)
+    off = zone_offset_for_utc(ex, zone, None, utc_secs(dt))
     old = dt.fields[1]
     if (not is_sym(off)) and (not is_sym(old)) and off == old: return cdt(dt.fields[0], off, zone, dt.fields[3] if len(dt.fields) > 3 else None)
     delta = sx(off) - sx(old)
